@@ -6,7 +6,10 @@ locations and working directories, several times each; sha256 digests of every m
 array, every state returned by update, every recorded dataset / attribute (timestamps
 excluded), the dt sequence and the per-step records must coincide across all runs of a
 case. In-process: the NaN-poisoned kernel output buffer must be fully overwritten, and
-numpy's global RNG state must be unchanged by a solve."""
+numpy's global RNG state must be unchanged by a solve. The digest set includes what
+tdgl.solve() hands back (the returned Solution's fields, dt and times), so a result
+read from the wrong file is seen. History: the same seeded run is repeated in one process
+from one in-memory seed object and from a re-loaded copy of it."""
 import hashlib
 import os
 
@@ -18,11 +21,12 @@ from . import _simcases as S
 RULE = (
     "configuration = one simulation input (no screening + adaptive, screening, time-dependent drive + callable currents, "
     "epsilon callable, fixed step with holes); each configuration is executed in fresh processes under 8 (quick) / ~40 (thorough) "
-    "environments: NUMBA_NUM_THREADS in 1..16, OMP/OPENBLAS threads 1/4, PYTHONHASHSEED 0/1/random, output file / temp dir / other "
-    "cwd, repeated. case = (configuration, environment); non-trivial = run completed with >= 10 updates and digests produced; "
+    "environments: NUMBA_NUM_THREADS in 1..16, OMP/OPENBLAS threads 1/4, PYTHONHASHSEED 0/1/random, output file / temp dir / "
+    "output file name already occupied by an earlier different run / other cwd, repeated. In-process seed_reuse case = the same seeded "
+    "simulation run twice from one in-memory seed Solution and once from the seed re-loaded from its file (all digests equal, seed untouched). case = (configuration, environment); non-trivial = run completed with >= 10 updates and digests produced; "
     "distinct = distinct (configuration, environment); the verdict compares all digests of a configuration"
 )
-REQUIRED_COUNTERS = ["process_runs", "digest_comparisons", "kernel_buffer_checks", "rng_state_checks"]
+REQUIRED_COUNTERS = ["process_runs", "digest_comparisons", "kernel_buffer_checks", "rng_state_checks", "seed_reuse_comparisons"]
 CASE_TIMEOUT = {"quick": 600, "thorough": 1200}
 ASSUMPTIONS = ["one machine, one numba/LLVM build; races are observed only as differing results across thread counts and repetitions"]
 
@@ -61,8 +65,11 @@ def gen_cases(tier, seed):
             envs.append({"NUMBA_NUM_THREADS": t, "OMP_NUM_THREADS": [1, 4][i % 2], "OPENBLAS_NUM_THREADS": [1, 4][i % 2],
                          "PYTHONHASHSEED": ["0", "1", "random"][i % 3]})
         for i, e in enumerate(envs):
-            cases.append({"config": cfg["name"], "device": cfg["device"], "options": dict(cfg["options"], output=["file", "temp", "file"][i % 3]), "drive": cfg["drive"],
+            cases.append({"config": cfg["name"], "device": cfg["device"], "options": dict(cfg["options"], output=["file", "temp", "file", "occupied"][i % 4]), "drive": cfg["drive"],
                           "env": e, "cwd_mode": ["outdir", "other"][i % 2], "rep": i, "cost": 10, "timeout": 600})
+    for cfg in _configs(tier, seed):
+        if cfg["name"] in ("screening", "plain_adaptive", "timedep_callable"):
+            cases.append({"layer": "seed_reuse", "config": cfg["name"], "device": cfg["device"], "options": dict(cfg["options"], output="file"), "drive": cfg["drive"], "cost": 30, "timeout": 900})
     return cases
 
 
@@ -75,31 +82,7 @@ def _dig(h, *parts):
             h.update(repr(p).encode())
 
 
-def run_case(spec):
-    import numba
-
-    numba_threads = int(numba.get_num_threads())
-    if numba_threads != int(spec["env"]["NUMBA_NUM_THREADS"]):
-        return {"status": "harness_error", "error": f"numba threads {numba_threads} != requested {spec['env']['NUMBA_NUM_THREADS']}"}
-    tm = simmon.TraceMonitor()
-    sn = simmon.Sanitizer()
-    state0 = np.random.get_state()
-    cwd = os.getcwd()
-    if spec["cwd_mode"] == "other":
-        os.chdir("/")
-    try:
-        rr = sim.run_sim(spec, [tm, sn], keep_dir=True)
-    finally:
-        os.chdir(cwd)
-    if rr.refused:
-        return {"violations": [], "counters": {"refused_mesh": 1}, "classes": ["refused"], "nontrivial": False, "config": spec["config"]}
-    state1 = np.random.get_state()
-    V = list(sn.V)
-    C = dict(sn.C)
-    C["process_runs"] = 1
-    C["rng_state_checks"] = 1
-    if not (state0[0] == state1[0] and np.array_equal(state0[1], state1[1]) and state0[2:] == state1[2:]):
-        V.append({"kind": "global_rng_state_changed", "mechanism": "global_rng_state_changed", "detail": {"config": spec["config"]}})
+def _digests(rr, tm):
     digests = {}
     mesh = rr.device.mesh
     h = hashlib.sha256()
@@ -129,14 +112,131 @@ def run_case(spec):
                 for k in sorted(fr["running"]):
                     _dig(h, k, fr["running"][k])
         digests["recorded_frames"] = h.hexdigest()
+    sol = rr.solution
+    if sol is not None:
+        # what tdgl.solve() handed back to the caller
+        h = hashlib.sha256()
+        td = sol.tdgl_data
+        for f in ("psi", "mu", "applied_vector_potential", "induced_vector_potential", "supercurrent", "normal_current", "epsilon"):
+            _dig(h, f, np.asarray(getattr(td, f)))
+        dyn = sol.dynamics
+        _dig(h, "step", int(sol.solve_step), "dt", None if dyn is None else np.asarray(dyn.dt), "time", None if dyn is None else np.asarray(dyn.time), "times", np.asarray(sol.times))
+        digests["returned_solution"] = h.hexdigest()
+    return digests, ups
+
+
+def run_case(spec):
+    if spec.get("layer") == "seed_reuse":
+        return _run_seed_reuse(spec)
+    import numba
+
+    numba_threads = int(numba.get_num_threads())
+    if numba_threads != int(spec["env"]["NUMBA_NUM_THREADS"]):
+        return {"status": "harness_error", "error": f"numba threads {numba_threads} != requested {spec['env']['NUMBA_NUM_THREADS']}"}
+    tm = simmon.TraceMonitor()
+    sn = simmon.Sanitizer()
+    state0 = np.random.get_state()
+    cwd = os.getcwd()
+    if spec["cwd_mode"] == "other":
+        os.chdir("/")
+    workdir = None
+    if spec["options"].get("output") == "occupied":
+        # the requested output file already exists (result of an earlier, different simulation)
+        import copy
+        import tempfile
+
+        workdir = tempfile.mkdtemp(prefix="vt_c09_")
+        other = copy.deepcopy(spec)
+        other["options"]["output"] = "file"
+        other["options"]["solve_time"] = 0.5 * other["options"]["solve_time"]
+        if "auto_dt" in other["options"]:
+            other["options"]["auto_dt"] = dict(other["options"]["auto_dt"], steps=max(3, other["options"]["auto_dt"]["steps"] // 2))
+        other["drive"] = {"A": {"kind": "zero"}}
+        r0 = sim.run_sim(other, [], workdir=workdir, keep_dir=True)
+        if r0.refused:
+            return {"violations": [], "counters": {"refused_mesh": 1}, "classes": ["refused"], "nontrivial": False, "config": spec["config"]}
+        if r0.exception is not None:
+            return {"status": "harness_error", "error": "occupying run failed: " + repr(r0.exception)[:200]}
+        spec = dict(spec, options=dict(spec["options"], output="file"))
+    try:
+        rr = sim.run_sim(spec, [tm, sn], keep_dir=True, workdir=workdir)
+    finally:
+        os.chdir(cwd)
+    if rr.refused:
+        return {"violations": [], "counters": {"refused_mesh": 1}, "classes": ["refused"], "nontrivial": False, "config": spec["config"]}
+    state1 = np.random.get_state()
+    V = list(sn.V)
+    C = dict(sn.C)
+    C["process_runs"] = 1
+    C["rng_state_checks"] = 1
+    if not (state0[0] == state1[0] and np.array_equal(state0[1], state1[1]) and state0[2:] == state1[2:]):
+        V.append({"kind": "global_rng_state_changed", "mechanism": "global_rng_state_changed", "detail": {"config": spec["config"]}})
+    digests, ups = _digests(rr, tm)
     import shutil
 
     shutil.rmtree(rr.outdir, ignore_errors=True)
     return {"violations": V, "counters": C, "classes": ["config=" + spec["config"], f"threads={spec['env']['NUMBA_NUM_THREADS']}", "hashseed=" + spec["env"]["PYTHONHASHSEED"],
-                                                      "output=" + spec["options"]["output"], "cwd=" + spec["cwd_mode"]],
+                                                      "output=" + ("occupied" if workdir else spec["options"]["output"]), "cwd=" + spec["cwd_mode"]],
             "nontrivial": len(ups) >= 10, "config": spec["config"], "digests": digests, "env": spec["env"], "rep": spec["rep"],
             "key": f"{spec['config']}|{spec['rep']}",
             "sample": {"config": spec["config"], "env": spec["env"], "updates": len(ups), "digests": {k: v[:16] for k, v in digests.items()}}}
+
+
+def _run_seed_reuse(spec):
+    """In one process: the same in-memory seed Solution starts the same simulation twice, and a
+    copy of the seed re-loaded from its file starts it a third time; all three must coincide
+    and the seed itself must be left as it was."""
+    import copy
+    import shutil
+
+    from tdgl import Solution
+
+    dev, why = zoo.try_build_device(spec["device"])
+    if dev is None:
+        return {"violations": [], "counters": {"refused_mesh": 1}, "classes": ["refused"], "nontrivial": False}
+    s0 = copy.deepcopy(spec)
+    s0["options"].update(include_screening=False, output="file")
+    r0 = sim.run_sim(s0, [], device=dev, keep_dir=True)
+    if r0.refused:
+        return {"violations": [], "counters": {"refused_mesh": 1}, "classes": ["refused"], "nontrivial": False}
+    if r0.exception is not None or r0.solution is None:
+        return {"status": "harness_error", "error": "seed run failed: " + repr(r0.exception)[:200]}
+    seed = r0.solution
+    fields = ("psi", "mu", "applied_vector_potential", "induced_vector_potential", "supercurrent", "normal_current", "epsilon")
+
+    def seed_hashes(sol):
+        return {f: hashlib.sha256(np.ascontiguousarray(getattr(sol.tdgl_data, f)).tobytes()).hexdigest() for f in fields}
+
+    before = seed_hashes(seed)
+    V, C = [], {"process_runs": 0, "seed_reuse_comparisons": 0, "seed_immutability_checks": 0}
+    runs = []
+    dirs = [r0.outdir]
+    for label in ("first", "second_same_object", "reloaded_from_file"):
+        sd = seed if label != "reloaded_from_file" else Solution.from_hdf5(seed.path)
+        tm = simmon.TraceMonitor()
+        rr = sim.run_sim(spec, [tm], device=dev, seed_solution=sd, keep_dir=True)
+        dirs.append(rr.outdir)
+        if rr.refused:
+            break
+        d, ups = _digests(rr, tm)
+        d.pop("mesh", None)
+        runs.append((label, d, len(ups)))
+        C["process_runs"] += 1
+        C["seed_immutability_checks"] += 1
+        after = seed_hashes(seed)
+        if after != before:
+            V.append({"kind": "seed_solution_mutated_by_run", "mechanism": "seed_solution_mutated", "detail": {"after": label, "fields": [f for f in fields if before[f] != after[f]]}})
+            before = after
+    for label, d, n in runs[1:]:
+        C["seed_reuse_comparisons"] += 1
+        for k in sorted(d):
+            if d[k] != runs[0][1].get(k):
+                V.append({"kind": "repeat_with_same_seed_differs", "mechanism": "nondeterministic_" + k, "detail": {"run": label, "what": k, "updates": [runs[0][2], n]}})
+                break
+    for dd in dirs:
+        shutil.rmtree(dd, ignore_errors=True)
+    return {"violations": V, "counters": C, "classes": ["seed_reuse", "config=" + spec["config"]], "nontrivial": len(runs) == 3 and min(r[2] for r in runs) >= 10,
+            "sample": {"config": spec["config"], "runs": [(l, n, d.get("update_states", "")[:16]) for l, d, n in runs]}}
 
 
 def finalize(results, tier):
